@@ -453,7 +453,19 @@ def build_env(spec):
     B = Built()
     t = [x for x in spec['types'] if x['id'] == spec['root']][0]
     ns = {'__annotations__': {}}
+    m = spec.get('meta', {})
+    if m.get('skip_defaults_if') is not None:
+        # inner Meta: found by the library through its __qualname__ (<Outer>.<Meta>)
+        ns['_'] = type('_', (EnvWizard.Meta,), {'__qualname__': '%s._' % t['name'],
+                                               'key_transform_with_dump': 'NONE',
+                                               'skip_defaults_if': py_cond(m['skip_defaults_if'])})
     for f in t['fields']:
+        if f.get('catch_all'):
+            from dataclass_wizard import CatchAll
+            ns['__annotations__'][f['name']] = CatchAll
+            if f.get('default') is not None:
+                ns[f['name']] = f['default'][1]
+            continue
         ns['__annotations__'][f['name']] = py_type(f['type'], B)
         kw = py_default(f['default']) if f.get('default') is not None else {}
         if f.get('alias') is not None:
